@@ -259,6 +259,10 @@ func caseSize(c *SimCase) int {
 func (w *Worker) account(c *SimCase, st *CaseStats) {
 	o := w.Out
 	o.Cases++
+	if st.Rejected && st.RejectReason == "oversize program skipped" {
+		o.Inconclusive["oversize_program_skipped"]++
+		return
+	}
 	if st.Rejected && c.Mutated != "" {
 		o.Extra["mutants_rejected_by_real_checker"]++
 		return
